@@ -128,6 +128,7 @@ DETERMINISM_SLICE = 3
 _SEED = int(os.environ.get('VERIF_SEED', '0') or 0)
 TOL_STRUCT = 1e-12          # structural identities (same operations on both sides)
 TOL_Q = 3e-14               # quantile accuracy, relative to max(1, |z|)
+TOL_AS241 = 1e-12          # "is the value of the AS241 pieces" (same operations; numpy log/sqrt vs libm: a few ulp)
 MAX_UNADVERTISED_SKIP = 64
 
 # --------------------------------------------------------------------------- value alphabets (by seed)
@@ -142,7 +143,8 @@ _SEEDSETS = [
     dict(weyl=0.6823278038280193, weyl2=0.9128709291752769, eps=3 * 2.0 ** -20, alt=(0.07, 0.93), theta=0.6),
 ]
 SS = _SEEDSETS[_SEED % len(_SEEDSETS)]
-_BRANCHY = [0.074, 0.076, 0.44, 0.46, 0.5, 0.54, 0.56, 0.924, 0.926, 1e-12, 1.0 - 1e-12, 0.0749999, 0.9250001]
+_BRANCHY = [0.074, 0.076, 0.44, 0.46, 0.5, 0.54, 0.56, 0.924, 0.926, 1e-12, 1.0 - 1e-12, 0.0749999, 0.9250001,
+            0.45, 0.075, 0.925, 0.425, 0.55, 0.575]   # ... and the decimal limits themselves, bit for bit
 TAPES = ['weyl', 'ramp', 'mid', 'lo', 'hi', 'alt', 'branchy', 'weyl2', 'ramprev']
 
 
@@ -369,23 +371,38 @@ def quantile_errors(us, zs):
 
 
 def report_quantile(rec, errs, case, where):
-    """One violation per AS241 region in which some point is off; witness = first point, text carries the worst."""
-    byreg = {}
+    """One violation per (AS241 region, kind of wrong value) in which some point is off; witness = first point, text
+    carries the worst.
+
+    The oracle is the statement alone (error against the certified reference quantile above TOL_Q).  The *finding key*
+    names the witness: the region of (0,1) and whether the delivered number is the value which the published AS241
+    pieces give when the central piece is selected by |u| <= 0.45 (R_.as241(u, 'abs_u_le_0.45'): the piece selection
+    of the open finding 'C11|normal-quantile-inaccurate|region=...', whose keys are kept) or some OTHER number
+    ('...|region=...|not-the-as241-value': a point that belongs to no piece, a wrong coefficient, another limit between
+    the pieces, ...).  Without this distinction every other defect of the transform would hide behind the open finding in
+    the three regions it affects."""
+    bygroup = {}
     for u, z, zr, e in errs:
         if e > TOL_Q:
-            byreg.setdefault(R_.region(u), []).append((u, z, zr, e))
-    for reg, bad in byreg.items():
-        u, z, zr, e = bad[0]
-        wu, wz, wzr, we = max(bad, key=lambda t: t[3])
+            model = R_.as241(u, 'abs_u_le_0.45')
+            explained = math.isfinite(z) and abs(z - model) <= TOL_AS241 * max(1.0, abs(model))
+            bygroup.setdefault((R_.region(u), explained), []).append((u, z, zr, e, model))
+    for (reg, explained), bad in bygroup.items():
+        u, z, zr, e, model = bad[0]
+        wu, wz, wzr, we, _ = max(bad, key=lambda t: t[3])
         c = dict(case)
         c['witness_u'] = float(u).hex()
+        rec.count('quantile_points_off_as241_piece_selection' if explained else 'quantile_points_off_other_value',
+                  len(bad))
         rec.violation(
-            f'C11|normal-quantile-inaccurate|region={reg}',
+            f'C11|normal-quantile-inaccurate|region={reg}' + ('' if explained else '|not-the-as241-value'),
             f'{where}: the normal draw for uniform input u={u!r} is {z!r}, the standard-normal quantile is {zr!r} '
             f'(error {e:.3g} relative to max(1,|z|), tolerance {TOL_Q:g}); {len(bad)} such point(s) in this case, '
-            f'worst u={wu!r}: {wz!r} vs {wzr!r} (error {we:.3g})',
+            f'worst u={wu!r}: {wz!r} vs {wzr!r} (error {we:.3g})'
+            + ('' if explained else f'; the delivered number is not even what the AS241 pieces give for this u when the '
+               f'central piece is selected by |u| <= 0.45 ({model!r})'),
             c, expected=zr, observed=z)
-    return bool(byreg)
+    return bool(bygroup)
 
 
 def lib_quantile(us, n=None, r=None, antithetic=False):
@@ -631,6 +648,8 @@ def check_entry_case(rec, cat, name, n, r, tid, perm, cache, via_db=False, hist=
             bad('db-path', 'Database.generate_draws differs from the catalogue generator under the same RNG answers',
                 expected=vals[:5], observed=flat(t)[:5])
         rec.count('db_path_calls')
+    if hist is not None:
+        hist['ok'] = ok_all
     rec.case(nt, (key, digest(out)), outcome=(oc, ok_all))
     return vals
 
@@ -1016,6 +1035,17 @@ def hist_iter(task, cat):
                             for extra in task['extras']:
                                 yield ('bind', dict(types=list(types), N=s[0], R=s[1], via=via, names=norder,
                                                     dict=dorder, extra=extra))
+    elif kind == 'ureg':
+        # histories of registrations of user-defined generators on ONE Database, the catalogue entry being requested
+        # through that Database after every registration (see _hist_ureg)
+        tuples = list(itertools.product([tuple(o) for o in task['ops']], repeat=task['depth']))
+        jobs = [(a, ops) for a in names for ops in tuples][sh_i::sh_k]
+        for a, ops in jobs:
+            for s in S:
+                if not ok_size(a, s):
+                    yield ('skip',)
+                    continue
+                yield ('ureg', dict(type=a, N=s[0], R=s[1], ops=[list(o) for o in ops]))
     else:
         raise KeyError(kind)
 
@@ -1034,6 +1064,8 @@ def _part_hist(task, rec, stop_after=None):
             run_history(rec, cat, item[1], task, hindex)
         elif item[0] == 'bind':
             _hist_bind(rec, cat, item[1], task, hindex, state)
+        elif item[0] == 'ureg':
+            _hist_ureg(rec, cat, item[1], task, hindex)
         else:
             _hist_multi(rec, cat, item[1], item[2], item[3], item[4], task, hindex)
         rec.count('histories')
@@ -1217,6 +1249,125 @@ def _hist_bind(rec, cat, b, task, hindex, state):
                       f'consumed them{before}', case, expected=s0[j][:5], observed=got[j][:5])
 
 
+# Registrations of user-defined generators (part hist, kind 'ureg').  A Database carries, besides the catalogue, the
+# generators its user registered with set_random_number_generators; the library refuses (ValueError) a dictionary that
+# uses the name of a catalogue entry.  Whatever was registered - or refused - before on the object, a request for a
+# catalogue entry must deliver what that entry advertises.  A registration op is (dictionary, format, method):
+#   dictionary  'user'       {MINE: g}                     a valid name
+#               'case'       {<entry in lower case>: g}    a valid name that differs from the entry's only by case
+#               'empty'      {}
+#               'same'       {<entry>: g}                  the name of the entry requested afterwards (reserved)
+#               'other'      {<next entry of the catalogue>: g}   another reserved name
+#               'user+same'  {MINE: g, <entry>: g}         a valid and a reserved name, in both insertion orders
+#               'same+user'  {<entry>: g, MINE: g}
+#   format      'tuple' (generator, description) - the documented old format - or 'named' (RandomNumberGeneratorTuple)
+#   method      'new' set_random_number_generators or 'old' setRandomNumberGenerators (deprecated alias)
+# g is a deterministic user generator that never touches the RNG: g(n, r) = constant array, the constant being
+# UREG_VALUES[index of the op in the history % 2] (one value outside every advertised support, one inside all of them).
+UREG_DICTS = ['user', 'case', 'empty', 'same', 'other', 'user+same', 'same+user']
+UREG_FORMATS = ['tuple', 'named']
+UREG_METHODS = ['new', 'old']
+UREG_OPS_ALL = [[d, f, m] for d in UREG_DICTS for f in UREG_FORMATS for m in UREG_METHODS]
+UREG_OPS_2 = [[d, f, m] for d in UREG_DICTS for f, m in (('tuple', 'new'), ('named', 'old'))]
+UREG_OPS_3 = [[d, 'tuple', 'new'] for d in UREG_DICTS]
+UREG_VALUES = [7.0, 0.5]
+UREG_USER_NAME = 'MINE'
+
+
+def _ureg_dictionary(cat, entry, kind):
+    """Ordered list of names of the dictionary handed to the registration, and whether it holds a reserved name."""
+    names = list(cat)
+    other = names[(names.index(entry) + 1) % len(names)]
+    lower = entry.lower()
+    keys = {'user': [UREG_USER_NAME], 'case': [lower], 'empty': [], 'same': [entry], 'other': [other],
+            'user+same': [UREG_USER_NAME, entry], 'same+user': [entry, UREG_USER_NAME]}[kind]
+    return keys, any(k in cat for k in keys)
+
+
+def _hist_ureg(rec, cat, u, task, hindex):
+    """u = dict(type=<entry>, N, R, ops=[[dictionary, format, method], ...]).  On ONE new Database: apply the ops in
+    order; after every op request the entry through Database.generate_draws (alone, or - when the reference model of the
+    registry says that MINE is registered, i.e. the last op was accepted and held MINE - together with a variable of
+    the user's type, in alternating order of the two names) and check the answer against every clause of part gen
+    (finding keys C11|history|<clause>|type=<entry>) and against the catalogue generator asked directly under the same
+    RNG answers (C11|history|db-path|type=<entry>).  Whether a registration is accepted or refused is observed and
+    counted, not judged: the statement speaks about what the catalogue entries deliver."""
+    import numpy as np
+    import pandas as pd
+    import biogeme.database as db
+    from biogeme.exceptions import BiogemeError
+    from biogeme.native_draws import RandomNumberGeneratorTuple
+    name, n, r, ops = u['type'], u['N'], u['R'], [list(o) for o in u['ops']]
+    d = db.Database(f'c11u{n}', pd.DataFrame({'x': [float(i + 1) for i in range(n)]}))
+    registered = set()          # reference model of the registry: names of the last ACCEPTED dictionary
+    done = []
+    hid = ('ureg', name, n, r)
+    for pos, (kind, fmt, meth) in enumerate(ops):
+        value = UREG_VALUES[pos % len(UREG_VALUES)]
+
+        def g(nn, rr, value=value):
+            return np.full((nn, rr), value)
+
+        keys, reserved = _ureg_dictionary(cat, name, kind)
+        entry = (lambda: (g, 'user-defined')) if fmt == 'tuple' else \
+            (lambda: RandomNumberGeneratorTuple(generator=g, description='user-defined'))
+        dct = {k: entry() for k in keys}
+        method = d.set_random_number_generators if meth == 'new' else d.setRandomNumberGenerators
+        try:
+            method(dct)
+            res = 'accepted'
+            registered = set(keys)
+        except ValueError:
+            res = 'ValueError'
+        except Exception as ex:  # noqa: BLE001 - observed, not judged
+            res = type(ex).__name__
+        rec.count(f'ureg_{"reserved" if reserved else "valid"}_dictionary_{res}')
+        done.append(f'{"set_random_number_generators" if meth == "new" else "setRandomNumberGenerators"}'
+                    f'({{{", ".join(keys)}}} as {fmt}, g = {value}) -> {res}')
+        tid, perm = HTAPES[pos % len(HTAPES)], HPERMS[pos % len(HPERMS)]
+        with_user = UREG_USER_NAME in registered
+        holder = {}
+
+        def producer(n_, r_, d=d, name=name, pos=pos, with_user=with_user, holder=holder):
+            if with_user:
+                order = ['w', 'v'] if pos % 2 == 0 else ['v', 'w']
+                try:
+                    t = d.generate_draws({'w': UREG_USER_NAME, 'v': name}, order, r_)
+                    if getattr(t, 'ndim', 0) == 3 and t.shape[2] == 2:
+                        holder['two'] = True
+                        return t[:, :, order.index('v')]
+                    return t
+                except BiogemeError:
+                    holder['user_type_unknown'] = True      # the user's types are not the statement's subject
+            t = d.generate_draws({'v': name}, ['v'], r_)
+            if getattr(t, 'ndim', 0) != 3 or t.shape[2] != 1:
+                return t
+            return t[:, :, 0]
+
+        where = '[Database.generate_draws on a Database after ' + '; '.join(done) + ']'
+        case = dict(part='hist', task=task, hindex=hindex, pos=pos, ureg=u)
+        key = (hid, tuple(tuple(o) for o in ops[:pos + 1]))
+        hist = dict(case=case, key=key, producer=producer, where=where)
+        cache = {}
+        vals = check_entry_case(rec, cat, name, n, r, tid, perm, cache, via_db=False, hist=hist)
+        if holder.get('user_type_unknown'):
+            rec.count('ureg_registered_user_type_unknown_to_generate_draws')
+        if holder.get('two'):
+            rec.count('ureg_requests_together_with_a_user_type')
+        if vals is None or not hist.get('ok'):
+            continue                                             # already reported under the clause it breaks
+        # the same request put to the catalogue generator directly, under the same RNG answers
+        o2, _, e2 = call_gen(cat[name][0], n, r, tid, perm)
+        if e2 is not None or getattr(o2, 'shape', None) != (n, r):
+            rec.count('hist_multi_single_requests_failed')       # reported by the gen / history parts
+            continue
+        if not all_close(vals, flat(o2), 0.0):
+            rec.violation(f'C11|history|db-path|type={name}',
+                          f'{name} ({cat[name][1]["desc"]!r}) N={n} R={r} tape={tid} shuffle={perm} {where}: '
+                          'Database.generate_draws differs from the catalogue generator under the same RNG answers',
+                          case, expected=flat(o2)[:5], observed=vals[:5])
+
+
 def _hist_multi(rec, cat, a, b, n, r, task, hindex):
     """Two variables in ONE Database.generate_draws call: the call must deliver the (N, R, 2) table, and slice j must
     be what entry j delivers when it is asked alone under the same RNG answers (the tape simply continues from the
@@ -1280,6 +1431,9 @@ def _ulps(x, k):
     return x
 
 
+DECIMAL_GRIDS = (20, 40, 200, 1000)
+
+
 def special_points():
     """Tails and branch-point neighbourhoods (deterministic, sorted by 'simplicity': branch points first)."""
     pts = []
@@ -1300,6 +1454,12 @@ def special_points():
     th = SS['theta']
     for k in range(1, 400):  # a coarse non-dyadic comb over everything, seed-shifted
         pts.append((k + th * 0.5) / 400.0)
+    # regular probability grids k/D, NOT shifted by the seed: the doubles a caller gets from np.arange(1, D)/D or
+    # from decimal literals (0.45 = 9/20, 0.425 = 17/40, 0.075 = 3/40, ...), i.e. the numbers that sit bit for bit on
+    # decimal limits between the pieces of a piecewise approximation
+    for D in DECIMAL_GRIDS:
+        for k in range(1, D):
+            pts.append(k / D)
     out, seen = [], set()
     for p in pts:
         if 0.0 < p < 1.0 and p >= 2.0 ** -1020 and p not in seen:
@@ -1378,6 +1538,12 @@ def _part_q(task, rec):
     if task['kind'] == 'special':
         pts = special_points()
         us = pts[task['lo']:task['hi']]
+        if task['lo'] == 0:
+            w = R_.selftest_as241()
+            if w > 5e-15:
+                raise RuntimeError(f'the transcription of AS241 (vf.ref_draws.as241) is off the certified quantile by {w:g}: '
+                                   'finding keys of the quantile clause are not trusted')
+            rec.count('as241_transcription_selftests')
     else:
         us = grid_points(task['m'], task['lo'], task['hi'])
     if not us:
@@ -1442,6 +1608,19 @@ def hist_tasks(tier):
         for i in range(k3):
             t.append(dict(part='hist', kind='bind', k=3, shard=[i, k3], sizes=[[2, 2]], vias=['db', 'idm'],
                           extras=ex))
+    # ureg: registrations of user-defined generators (valid / reserved names) on one Database, then the request
+    ku = 2 if quick else 6
+    for i in range(ku):
+        t.append(dict(part='hist', kind='ureg', depth=1, ops=UREG_OPS_ALL, shard=[i, ku],
+                      sizes=[[2, 2], [3, 4]] if quick else hs))
+    ku = 6 if quick else 4 * HIST_SHARDS
+    for i in range(ku):
+        t.append(dict(part='hist', kind='ureg', depth=2, ops=UREG_OPS_2 if quick else UREG_OPS_ALL, shard=[i, ku],
+                      sizes=[[2, 2]]))
+    if not quick:
+        ku = 2 * HIST_SHARDS
+        for i in range(ku):
+            t.append(dict(part='hist', kind='ureg', depth=3, ops=UREG_OPS_3, shard=[i, ku], sizes=[[2, 2]]))
     for x in t:
         x['fresh'] = True
     return t
